@@ -9,7 +9,7 @@ VARIABLE l
 tvars == <<vars, l>>
 TInit == Init /\ l = 1
 IsEv(kind, w) == l <= Len(Trace) /\ Trace[l][1] = kind /\ Trace[l][3] = w /\ Trace[l][2] = witem[w]
-Silent == /\ \/ PPut \/ PPutFull \/ PClose \/ PJoinThread \/ PSetEv \/ PJoinW \/ Flush
+Silent == /\ \/ PPut \/ PPutFull \/ PClose \/ PJoinThread \/ PJoinThreadPoll \/ PSetEv \/ PJoinW \/ Flush
              \/ \E w \in Workers : WSample(w) \/ WAcquire(w) \/ WLockTimeout(w) \/ WRecv(w) \/ WPollTimeout(w) \/ WCheckDone(w)
           /\ UNCHANGED l
 Logged == \E w \in Workers : \/ (IsEv("s", w) /\ WCbStart(w) /\ l' = l + 1)
